@@ -18,8 +18,10 @@ objects
 and replays ops: ['adv', dv, tv] displaces the particle with identity i by
 dv[i % len] lattice units along f (tv: transverse); ['in', stage] /
 ['out', stage] call the real update(t, dt, stage).  For every call the rows
-(identity, s, t1, t2, two copied properties) of the inlet, fluid and outlet
-arrays before and after are logged in 1/FINE lattice units.  A scenario
+(identity, s, t1, t2, two copied properties, tag) of the inlet, fluid and
+outlet arrays in array order and their num_real_particles, before and after,
+are logged in 1/FINE lattice units.  'ghosts': {array: [[s, t1, t2, tag]]}
+appends non-local rows (tag 1 Remote, 2 Ghost) behind the Local ones.  A scenario
 {'id', 'seq': [scenario, ...]} runs several histories with the same array
 names and different geometries interleaved in ONE process (see run()).  After an inlet
 call the harness gives every recycled inlet original (its identity now also
@@ -70,6 +72,11 @@ def frame(sc):
     return f, t1, t2, nz
 
 
+def full(pa, name):
+    """The whole property array (attribute access gives the real range)."""
+    return pa.get_carray(name).get_npy_array()
+
+
 class Rig(object):
     def __init__(self, sc):
         from pysph.base.utils import get_particle_array
@@ -87,6 +94,11 @@ class Rig(object):
         Outlet = importlib.import_module('pysph.sph.bc.%s.outlet' % fam).Outlet
 
         def arr(name, rows):
+            # non-local rows (tag 1 Remote, 2 Ghost) follow the Local ones,
+            # as alignment leaves them
+            extra = (sc.get('ghosts') or {}).get(name, [])
+            tags = [0] * len(rows) + [int(g[3]) for g in extra]
+            rows = [tuple(r) for r in rows] + [tuple(g[:3]) for g in extra]
             n = len(rows)
             P = np.zeros((n, 3))
             for k, (s, a, b) in enumerate(rows):
@@ -101,6 +113,9 @@ class Rig(object):
             pa.add_property('ident', type='long', data=ids)
             pa.add_property('ca', data=self.val_a(ids))
             pa.add_property('cb', data=self.val_b(ids))
+            if n:
+                full(pa, 'tag')[:] = tags
+            pa.align_particles()
             return pa
         inlet = arr('inlet', sc['inlet'])
         fluid = arr('fluid', sc['fluid'])
@@ -199,6 +214,7 @@ class Rig(object):
         ident = pa.get('ident', only_real_particles=False)
         ca = pa.get('ca', only_real_particles=False)
         cb = pa.get('cb', only_real_particles=False)
+        tag = pa.get('tag', only_real_particles=False)
         out = []
         for k in range(n):
             out.append(dict(
@@ -206,13 +222,16 @@ class Rig(object):
                 s=int(round(float(np.dot(rel[k], self.f)) / U * FINE)),
                 t1=int(round(float(np.dot(rel[k], self.t1)) / U * FINE)),
                 t2=int(round(float(np.dot(rel[k], self.t2)) / U * FINE)),
-                a=int(round(float(ca[k]))), b=int(round(float(cb[k])))))
+                a=int(round(float(ca[k]))), b=int(round(float(cb[k]))),
+                tag=int(tag[k])))
         return out
 
     def state(self):
         return dict(inlet=self.rows(self.pas['inlet']),
                     fluid=self.rows(self.pas['fluid']),
-                    outlet=self.rows(self.pas['outlet']))
+                    outlet=self.rows(self.pas['outlet']),
+                    nreal=[int(self.pas[n].num_real_particles)
+                           for n in ('inlet', 'fluid', 'outlet')])
 
     # -- harness actions ------------------------------------------------
     def advect(self, dv, tv):
@@ -234,9 +253,9 @@ class Rig(object):
                 e2[:] = 0.0
             mv = U * (np.outer(d, self.f) + np.outer(e1, self.t1) +
                       np.outer(e2, self.t2))
-            pa.x[:] = pa.x + mv[:, 0]
-            pa.y[:] = pa.y + mv[:, 1]
-            pa.z[:] = pa.z + mv[:, 2]
+            full(pa, 'x')[:] += mv[:, 0]
+            full(pa, 'y')[:] += mv[:, 1]
+            full(pa, 'z')[:] += mv[:, 2]
 
     def relabel(self):
         inlet, fluid = self.pas['inlet'], self.pas['fluid']
@@ -249,9 +268,9 @@ class Rig(object):
             if int(ident[k]) in fid:
                 new = self.nextid
                 self.nextid += 1
-                inlet.ident[k] = new
-                inlet.ca[k] = self.val_a(new)
-                inlet.cb[k] = self.val_b(new)
+                full(inlet, 'ident')[k] = new
+                full(inlet, 'ca')[k] = self.val_a(new)
+                full(inlet, 'cb')[k] = self.val_b(new)
 
     def call(self, kind, stage):
         import pysph.sph.equation as E
